@@ -6,6 +6,7 @@ from ..lib import core
 from ..lib.core import Failure, Disagreement
 from ..extract import units as _ex
 from ..extract import units_compound as _ex2
+from ..extract import units_scaling as _ex3
 
 PROP = "C09"
 LEAN_MODULE = "NixModel.Props.C09"
@@ -25,6 +26,8 @@ THEOREMS = [
     "Nix.C09.scaling_invert_all_powers",
     "Nix.C09.not_scalable_all_powers",
     "Nix.C09.compound_all_powers",
+    "Nix.C09.scaling_shape",
+    "Nix.C09.scaling_shape_ratio",
     "Nix.C09.scalable_equivalence",
     "Nix.C09.scaling_identity",
     "Nix.C09.scaling_refused_iff_not_scalable",
@@ -59,6 +62,7 @@ POWER7 = ["^-3", "^-2", "^-1", "", "^1", "^2", "^3"]
 def extract(repo):
     files = dict(_ex.extract(repo))
     files.update(_ex2.extract(repo))
+    files.update(_ex3.extract(repo))
     return files
 
 
